@@ -153,6 +153,11 @@ func C02bits(p *load.Program, run *report.Run) {
 				if c, ok := n.(*ast.CallExpr); ok {
 					if _, name, _ := callName(c); name == "BitFromLabel" || name == "LabelForBit" {
 						decides = true
+					} else if name == "Equal" && len(c.Args) == 1 {
+						// the label compared with a wire's L0 / L1 directly
+						if sel, ok := ast.Unparen(c.Args[0]).(*ast.SelectorExpr); ok && (sel.Sel.Name == "L0" || sel.Sel.Name == "L1") {
+							decides = true
+						}
 					}
 				}
 				return !decides
